@@ -29,6 +29,7 @@ import (
 	"os"
 	"path/filepath"
 	"sort"
+	"strconv"
 	"strings"
 
 	"github.com/edutko/cafegopher/java"
@@ -356,6 +357,14 @@ func genC06SSH(c *Ctx) {
 		return sshItem{kind: 0, line: hosts + " " + line, key: line, hosts: strings.ReplaceAll(hosts, ",", ", ")}
 	}
 	// ---- corpus: known witnesses first ----
+	// entry lines longer than 64 KiB (a line-oriented reader with a fixed token limit would stop there)
+	longOpt := "command=\"" + strings.Repeat("/usr/local/bin/tunnel --permit 10.0.0.1:22 ", 1700) + "\",no-pty"
+	c06SSHLayoutCase(c, "akeys", "corpus-long-line", []sshItem{ent(ed), {kind: 0, line: longOpt + " " + rsa, key: rsa}, ent(ed)}, false, 1)
+	var hostList []string
+	for k := 0; k < 5200; k++ {
+		hostList = append(hostList, "h"+strconv.Itoa(10000+k)+".example")
+	}
+	c06SSHLayoutCase(c, "khosts", "corpus-long-line", []sshItem{hent("first.example", rsa), hent(strings.Join(hostList, ","), ed), hent("last.example", rsa)}, true, 1)
 	// F15a: two .pub lines and the final newline every real file has
 	c06SSHLayoutCase(c, "akeys", "corpus", []sshItem{ent(ed), ent(rsa)}, false, 1)
 	c06SSHLayoutCase(c, "akeys", "corpus", []sshItem{ent(ed), ent(rsa)}, true, 1)
